@@ -231,25 +231,23 @@ bool splinetable<Alloc>::read_fits_core(fitsfile* fits, const std::string& fileP
 				aux[i][0] = aux[i][1] = NULL;
 				aux[i][0] = allocate<char>(keylen);
 				std::copy(key,key+keylen,aux[i][0]);
-				aux[i][1] = allocate<char>(valuelen);
 				//remove stupid quotes mandated by FITS, but not removed by cfitsio on reading
 				//Note that we do not attempt to remove whitespace, because we cannot 
 				//distinguish whitespace included by the user and whitespace pointlessly
 				//added by FITS.
-				if(valuelen>1 && value[0]=='\''){
-					if(valuelen>2 && value[valuelen-2]=='\''){ //remove a trailing quote also
-						std::copy(value+1,value+valuelen-2,aux[i][1]);
-						aux[i][1][valuelen-3]='\0';
-					}
-					else{ //just remove an opening quote
-						std::copy(value+1,value+valuelen-1,aux[i][1]);
-						aux[i][1][valuelen-2]='\0';
-					}
+				//Work out what will be kept first, so that exactly that much is
+				//allocated (the size is needed again to release the storage).
+				const char* vbegin = value;
+				size_t vlen = valuelen-1;
+				if(vlen>0 && vbegin[0]=='\''){ //remove an opening quote
+					vbegin++;
+					vlen--;
+					if(vlen>0 && vbegin[vlen-1]=='\'') //remove a trailing quote also
+						vlen--;
 				}
-				else{
-					std::copy(value,value+valuelen,aux[i][1]);
-					aux[i][1][valuelen-1]='\0';
-				}
+				aux[i][1] = allocate<char>(vlen+1);
+				std::copy(vbegin,vbegin+vlen,aux[i][1]);
+				aux[i][1][vlen]='\0';
 				i++;
 			}
 		} else {
